@@ -323,6 +323,110 @@ def body_nested(S, t, part):
     S.note("outcome", "accepted-allow-others")
 
 
+CONTAINER_SPECS = [("list", "int"), ("list", "ms"), ("list", "str"), ("set", "int"), ("set", "str"), ("list", "float"), ("single", "list")]
+CONTAINER_ITEMS = [0, 0.0, False, 5, "0", "7", "1, 2", "1 2", [0], [0, 3], [], "", None, True, 1.5, "a"]
+
+
+def body_containers(S, t, part):
+    """list/set settings: a provided scalar (also a falsy one: 0, 0.0, False) is one element and is never dropped; lists keep every element"""
+    cv = t.machine.config_validator
+    from mpf.core.config_validator import ValidationPath
+    item_type, validation = CONTAINER_SPECS[part["spec"]]
+    item = CONTAINER_ITEMS[S.choice("item", len(CONTAINER_ITEMS))]
+    default_none = bool(S.bool("default_none"))
+    spec = [item_type, validation, "None" if default_none else ""]
+    try:
+        got = cv.validate_config_item(spec, ValidationPath(None, "verif:item"), item)
+    except Exception:  # pylint: disable=broad-except
+        S.note("nontrivial", True)
+        S.note("outcome", "rejected")
+        return
+    if isinstance(item, list):
+        provided = len(item)
+    elif isinstance(item, str):
+        # how a string is split (commas, blanks) depends on the list kind: only "something provided is not dropped" is checked
+        if item.strip() and (len(got) if isinstance(got, (list, set, tuple)) else 1) < 1:
+            raise Violation("provided-value-never-dropped", "Util.string_to_list", "%s|%s on %r returned %r" % (item_type, validation, item, got))
+        S.note("nontrivial", True)
+        S.note("outcome", "accepted-string")
+        return
+    elif item is None:
+        provided = 0
+    else:
+        provided = 1                    # a bare scalar, whatever its truth value
+    if item_type == "single":
+        n = len(got) if isinstance(got, (list, set, tuple)) else -1
+    else:
+        if not isinstance(got, (list, set)):
+            raise Violation("lists-and-sets-normalised", "validate_config_item", "%s|%s on %r returned %r (%s)" % (item_type, validation, item, got, type(got).__name__))
+        n = len(got)
+    distinct = provided if item_type != "set" or not isinstance(item, list) else len(set(item))
+    if n != distinct and n != -1:
+        raise Violation("provided-value-never-dropped", "Util.string_to_list", "%s|%s on %r returned %r: %d element(s) provided, %d kept" % (item_type, validation, item, got, provided, n))
+    S.note("nontrivial", True)
+    S.note("outcome", "accepted")
+
+
+def body_shared_defaults(S, t, part):
+    """defaults filled in are fresh objects: changing the validated config of one device must not leak into the next validation or the spec"""
+    cv = t.machine.config_validator
+    names = _sections(t)[part["range"][0]:part["range"][1]]
+    name = names[S.choice("section", len(names))]
+    use_base = bool(S.bool("with_device_base_spec"))
+    # All inputs are native values from here on (section and base spec were chosen by forking). CrossHair bypasses functools.lru_cache
+    # while tracing, which would hide exactly the state this scenario is about (the cached spec object), so the stretch runs untraced.
+    with S.untraced():
+        _shared_defaults(S, cv, name, "device" if use_base else None)
+
+
+def _shared_defaults(S, cv, name, base):
+    cached = getattr(type(cv), "build_spec", None)
+    if hasattr(cached, "cache_clear"):
+        cached.cache_clear()            # every path is a fresh process: no spec object cached by an earlier path
+    spec = cv.config_spec[name]
+    before = copy.deepcopy(spec)
+    try:
+        built_before = copy.deepcopy(cv.build_spec(name, base))
+    except Exception:  # pylint: disable=broad-except
+        S.note("outcome", "no-spec")
+        return
+    # required keys get a harmless value
+    src = {}
+    for k, v in built_before.items():
+        if isinstance(v, list) and len(v) == 3 and v[2] == "" and v[0] == "single" and v[1] in SAFE_VALUE:
+            src[k] = SAFE_VALUE[v[1]]
+
+    def validate():
+        return cv.validate_config(name, dict(src), name, base_spec=base)
+    try:
+        first = validate()
+    except Exception:  # pylint: disable=broad-except
+        S.note("outcome", "rejected")
+        return
+    pristine = {k: (dict(v) if isinstance(v, dict) else list(v) if isinstance(v, list) else set(v) if isinstance(v, set) else v) for k, v in first.items()}
+    touched = 0
+    for k, v in first.items():
+        if isinstance(v, dict):
+            v["zz_verif"] = 1
+            touched += 1
+        elif isinstance(v, list):
+            v.append("zz_verif")
+            touched += 1
+        elif isinstance(v, set):
+            v.add("zz_verif")
+            touched += 1
+    second = validate()
+    if cv.build_spec(name, base) != built_before:
+        raise Violation("spec-not-modified", "_validate_config", "the spec built for %s (base %s) changed after validating a config" % (name, base))
+    for k, v in second.items():
+        if v != pristine.get(k) and isinstance(v, (dict, list, set)):
+            raise Violation("defaults-filled-in", "_validate_config", "section %s key %s: second validation returned %r, the first %r (default object shared between configs)" % (name, k, v, pristine.get(k)))
+    if cv.config_spec[name] != before:
+        raise Violation("spec-not-modified", "_validate_config", "spec of %s changed after the caller modified a validated config" % name)
+    S.note("nontrivial", touched > 0)
+    S.note("outcome", "accepted")
+
+
 def _range_validators():
     """all `type(min,max)` occurrences with numeric types from the spec file (re-read on every run)."""
     import re
@@ -348,4 +452,6 @@ def scenarios(tier):
             Scenario("validator", setup, body_validator, val_parts, teardown=teardown, part_budget=pb, per_path_timeout=30),
             Scenario("enum", setup, body_enum, enum_parts, teardown=teardown, part_budget=pb, per_path_timeout=30),
             Scenario("nested", setup, body_nested, nested_parts, teardown=teardown, part_budget=pb, per_path_timeout=30, min_nontrivial=0),
+            Scenario("containers", setup, body_containers, [dict(spec=i) for i in range(len(CONTAINER_SPECS))], teardown=teardown, part_budget=pb, per_path_timeout=30),
+            Scenario("shared_defaults", setup, body_shared_defaults, [dict(range=[i, i + 20]) for i in range(0, n_sec, 20)], teardown=teardown, part_budget=pb, per_path_timeout=30, min_nontrivial=0),
             Scenario("section", setup, body_section, sec_parts, teardown=teardown, part_budget=pb, per_path_timeout=30, min_nontrivial=0)]
